@@ -287,7 +287,15 @@ def check_arith(ctx):
             ctx.check(v.get("k") == "const" and v.get("val") == 0, inst, "PIN", b.path, "migration opens stores with enable_ttl = false (no filtering)", b.where(a))
 
 
+def check_indexes(ctx):
+    """range queries judge expiry on the record held by the ordered-index slot: a TTL change must put the *new* generation
+    there too (shared with C14.pair / C01.indexes)"""
+    from rules import C14
+    C14.check_pair(ctx, "C11.indexes")
+
+
 def check(ctx):
+    check_indexes(ctx)
     check_pred(ctx)
     check_lazy(ctx)
     check_revalidate(ctx)
